@@ -288,7 +288,18 @@ def check_student(ctx):
                 'p-value decision, p vs alpha')
     # SIDED
     n_sided = 0
-    for meth in tst.methods.values():
+    sided_funcs = list(tst.methods.values())
+    # module-level helpers of student.py that the test calls with its alpha
+    mod = program.module(STU)
+    for meth in list(tst.methods.values()):
+        for call in calls_in(meth.node):
+            if isinstance(call.func, ast.Name):
+                helper = mod.functions.get(call.func.id)
+                if helper is not None and helper.cls is None and \
+                        helper not in sided_funcs:
+                    sided_funcs.append(helper)
+                    _check_alpha_forwarded(ctx, meth, call, helper)
+    for meth in sided_funcs:
         params = set(meth.params)
         for call in calls_in(meth.node):
             cname = call_name(call)
@@ -339,12 +350,119 @@ def check_student(ctx):
                        f'two-sided', ok, at=meth.where(ret),
                        detail='2 * upper tail of |t|')
     ctx.floor('SIDED', n_sided, 4, 'ppf / sf calls of TestStudent')
-    _check_law_guard(ctx, tst)
+    _check_law_guard(ctx, tst, extra=[f for f in sided_funcs
+                                      if f.cls is None])
+    _check_stat_dtype(ctx, tst)
+    check_nan_mask(ctx, (STU,))
     # NAN-BOTH
     _check_nan_both(ctx, tst)
 
 
-def _check_law_guard(ctx, tst, rule='LAW-GUARD'):
+LOSSY_NUMERIC = {'round', 'around', 'round_', 'trunc', 'floor', 'ceil',
+                 'rint', 'float16', 'float32', 'half', 'single', 'int',
+                 'format', 'clip', 'nextafter'}
+
+
+def _check_alpha_forwarded(ctx, meth, call, helper):
+    '''The significance level reaches the quantile function as it was
+    requested: a helper called with a ROUNDED / narrowed alpha (e.g. to make
+    a cache key) computes the critical value of another level (5.7e-7 -> 1e-6;
+    3e-7 -> 0, i.e. an infinite threshold).'''
+    for par, arg in list(zip(helper.params, call.args)) + [
+            (k.arg, k.value) for k in call.keywords]:
+        if par is None or 'alpha' not in par:
+            continue
+        lossy = [c for c in ast.walk(arg) if isinstance(c, ast.Call) and
+                 call_name(c) in LOSSY_NUMERIC]
+        plain = txt(arg) in ('alpha', 'self.alpha', 'float(alpha)',
+                             'float(self.alpha)')
+        ctx.decide('SIDED', meth,
+                   f'{meth.name}: level handed to {helper.name}: '
+                   f'{txt(arg)[:40]}',
+                   False if lossy else True if plain else None,
+                   at=meth.where(call),
+                   detail=None if not lossy else
+                   f'`{txt(lossy[0])[:40]}` changes the level: the critical '
+                   f'value is the one of another alpha, and the p-value '
+                   f'decision (made with the real alpha) disagrees')
+
+
+NAN_MASKING_CALLS = {'fmin', 'fmax', 'nan_to_num', 'nanmin', 'nanmax',
+                     'nansum', 'nanmean', 'nanprod', 'nanmedian',
+                     'nanargmin', 'nanargmax', 'nancumsum'}
+
+
+def check_nan_mask(ctx, modules):
+    '''An undefined statistic or p-value (NaN) must stay undefined until the
+    comparison that fails it: numpy functions that IGNORE NaN (fmin / fmax
+    return the other operand, nan_to_num replaces it, the nan* reductions
+    skip it) turn "undefined" into an ordinary number - a p-value "capped to
+    1" with np.fmin reads 1.0 for a NaN statistic and the bin passes the
+    test and both corrections.'''
+    program = ctx.program
+    n = 0
+    bad = 0
+    for modname in modules:
+        mod = program.module(modname)
+        for func in mod.functions.values():
+            if func.parent is not None:
+                continue
+            n += 1
+            for call in calls_in(func.node):
+                if call_name(call) in NAN_MASKING_CALLS and isinstance(
+                        call.func, ast.Attribute):
+                    bad += 1
+                    ctx.violated('NAN-MASK', func,
+                                 f'{func.name}: {txt(call)[:60]}',
+                                 at=func.where(call),
+                                 detail='ignores NaN: an undefined value '
+                                        'becomes an ordinary one before the '
+                                        'comparison that should fail it')
+    if not bad:
+        ctx.holds('NAN-MASK', ', '.join(modules),
+                  f'{n} functions: no NaN-ignoring numpy function',
+                  nontrivial=False)
+
+
+def _check_stat_dtype(ctx, tst):
+    '''The statistic is a real number: an array that receives it must not
+    inherit the dtype of the INPUT data (zeros_like / empty_like / full_like
+    of a dataset value without an explicit float dtype): with integer counts
+    as reference the stored statistic is truncated toward zero and a failing
+    bin passes.'''
+    for meth in tst.methods.values():
+        like = {}
+        for node in walk_local(meth.node):
+            if isinstance(node, ast.Assign) and len(node.targets) == 1 and \
+                    isinstance(node.targets[0], ast.Name) and isinstance(
+                        node.value, ast.Call) and call_name(node.value) in (
+                            'zeros_like', 'empty_like', 'ones_like',
+                            'full_like') and node.value.args and \
+                    txt(node.value.args[0]).endswith(('.value', '.error')) \
+                    and not any(k.arg == 'dtype'
+                                for k in node.value.keywords):
+                like[node.targets[0].id] = node
+        for node in walk_local(meth.node):
+            if isinstance(node, ast.Assign) and isinstance(
+                    node.targets[0], ast.Subscript) and isinstance(
+                        node.targets[0].value, ast.Name) and \
+                    node.targets[0].value.id in like and not isinstance(
+                        node.value, ast.Constant):
+                alloc = like[node.targets[0].value.id]
+                ctx.violated(
+                    'STAT-DTYPE', meth,
+                    f'{meth.name}: {txt(node)[:60]} stored into '
+                    f'{txt(alloc.value)[:40]}', at=meth.where(node),
+                    detail='the array takes the dtype of the input data: '
+                           'integer counts as reference truncate the '
+                           'statistic toward zero (|t| = 2.66 becomes 2 and '
+                           'passes at 1 %); the verdict also stops being '
+                           'symmetric in the two datasets')
+    ctx.holds('STAT-DTYPE', tst.key, 'no statistic stored into an array '
+              'allocated with the dtype of the input data', nontrivial=False)
+
+
+def _check_law_guard(ctx, tst, rule='LAW-GUARD', extra=None):
     '''The law behind the threshold and the p-value is Student's with the
     requested ndf whenever ndf is given: (a) every use of the normal law
     `norm` in a method that knows ndf is reached only when `ndf is None`
@@ -353,7 +471,7 @@ def _check_law_guard(ctx, tst, rule='LAW-GUARD'):
     requested ndf; (b) Student-law calls receive ndf itself as the
     degrees of freedom.'''
     n = 0
-    for meth in tst.methods.values():
+    for meth in list(tst.methods.values()) + list(extra or ()):
         knows = {x for x in ('ndf', 'self.ndf')
                  if (x == 'ndf' and 'ndf' in meth.params) or (
                      x == 'self.ndf' and V.mentions(meth.node, set(),
